@@ -249,6 +249,7 @@ def check_parser(rep, drv, text, what="text"):
             return len(cases)
     rep.count("expressions_parsed_like_lark", len(cases))
     check_printer(rep, drv, text, what)
+    check_lines(rep, drv, text, what)
     return len(cases)
 
 
@@ -288,3 +289,22 @@ def check_printer(rep, drv, text, what="text"):
                        "text": text, "rewritten": t2, "failing_input": None}, failing_input_found=False)
         return
     rep.count("expressions_printed_and_read_by_lark", n_written)
+
+
+def check_lines(rep, drv, text, what="text"):
+    """Line.parse_line (cut at the first '#', then at the first '=', name by Lex.lex, right-hand side by Lex.lex + Parse.parse_expr) on
+    the characters of every assignment line must give the name and the expression of Lark's tree, and a comment exactly when Lark
+    attaches one; what it reads, written by Line.write_line, is read back (parse_written_line)"""
+    cases = impl.assignment_cases(text)
+    if not cases:
+        return
+    r = drv.ask(["parselines", [[core.Q(src), core.Q(name), want] for src, name, want, _ in cases]])
+    for (src, name, want, has_cm), res in zip(cases, r["results"]):
+        if res["verdict"] != "agree" or not res["roundtrip"] or ((res["comment"] is not None) != has_cm):
+            rep.violation(f"the line mirror and Lark disagree on the assignment of {name} in the {what}: {res['verdict']}"
+                          + ("" if res["roundtrip"] else "; write / parse round trip of the line fails")
+                          + ("" if (res["comment"] is not None) == has_cm else "; one of them sees a comment, the other does not") + f"  [{src[:80]}]",
+                          {"kind": "correspondence", "relation": "Line.parse_line vs Lark (assignment rule, comment token)",
+                           "text": text, "line": src, "failing_input": None}, failing_input_found=False)
+            return
+    rep.count("assignment_lines_read_like_lark", len(cases))
